@@ -4,7 +4,7 @@ M-Proto proofs, part 2 (C17): the generate plan. Characterisations of
 then all-or-nothing, conflict detection and confinement of the planned writes.
 -/
 import ThriftVerif.Proto.Plan
-import ThriftVerif.Proto.PathProofs
+import ThriftVerif.Proto.PathProofs5
 
 set_option linter.unusedSimpArgs false
 set_option linter.unusedVariables false
@@ -17,7 +17,20 @@ def KeyDisjoint (a b : Files) : Prop := ∀ p, hasKey a p = true → hasKey b p 
 theorem KeyDisjoint.symm {a b : Files} (h : KeyDisjoint a b) : KeyDisjoint b a :=
   fun p hb ha => h p ha hb
 
+/-- the keys of a map, in order. -/
+def keys (fs : Files) : List Str := fs.map (·.1)
+
 /-! ### hasKey / addFile / mergeFiles / mergePlugins -/
+
+theorem hasKey_iff_mem_keys (fs : Files) (p : Str) : hasKey fs p = true ↔ p ∈ keys fs := by
+  simp only [hasKey, keys, List.any_eq_true, beq_iff_eq, List.mem_map]
+
+theorem keys_nodup_append (a b : Files) (ha : (keys a).Nodup) (hb : (keys b).Nodup)
+    (hd : KeyDisjoint a b) : (keys (a ++ b)).Nodup := by
+  simp only [keys, List.map_append]
+  refine List.nodup_append.2 ⟨ha, hb, fun x hx y hy hxy => ?_⟩
+  subst hxy
+  exact hd x ((hasKey_iff_mem_keys a x).2 hx) ((hasKey_iff_mem_keys b x).2 hy)
 
 theorem hasKey_append (a b : Files) (p : Str) :
     hasKey (a ++ b) p = (hasKey a p || hasKey b p) := by simp [hasKey]
@@ -36,9 +49,11 @@ theorem addFile_some {fs : Files} {p : Str} {c : Content} {r : Files}
 
 /-- own characterisation of a successful `mergeFiles` (the concurrent-merge file has its own). -/
 theorem mergeFiles_some_spec (dest src r : Files) (h : mergeFiles dest src = some r) :
-    r = dest ++ src ∧ KeyDisjoint dest src := by
+    r = dest ++ src ∧ KeyDisjoint dest src ∧ (keys src).Nodup := by
   induction src generalizing dest with
-  | nil => simp only [mergeFiles, Option.some.injEq] at h; exact ⟨by simp [h], fun p _ hp => by simp [hasKey] at hp⟩
+  | nil =>
+    simp only [mergeFiles, Option.some.injEq] at h
+    exact ⟨by simp [h], fun p _ hp => by simp [hasKey] at hp, by simp [keys]⟩
   | cons x rest ih =>
     obtain ⟨p, c⟩ := x
     simp only [mergeFiles] at h
@@ -47,16 +62,25 @@ theorem mergeFiles_some_spec (dest src r : Files) (h : mergeFiles dest src = som
     | some d =>
       simp only [ha] at h
       obtain ⟨hk, rfl⟩ := addFile_some ha
-      obtain ⟨hr, hd⟩ := ih _ h
-      refine ⟨by simp [hr], fun q hq1 hq2 => ?_⟩
-      simp only [hasKey, List.any_cons, Bool.or_eq_true, beq_iff_eq] at hq2
-      rcases hq2 with rfl | hq2
-      · rw [hk] at hq1; exact absurd hq1 (by simp)
-      · exact hd q (by rw [hasKey_append]; simp [hq1]) hq2
+      obtain ⟨hr, hd, hn⟩ := ih _ h
+      refine ⟨by simp [hr], fun q hq1 hq2 => ?_, ?_⟩
+      · simp only [hasKey, List.any_cons, Bool.or_eq_true, beq_iff_eq] at hq2
+        rcases hq2 with rfl | hq2
+        · rw [hk] at hq1; exact absurd hq1 (by simp)
+        · exact hd q (by rw [hasKey_append]; simp [hq1]) hq2
+      · simp only [keys, List.map_cons, List.nodup_cons]
+        refine ⟨fun hm => ?_, hn⟩
+        exact hd p (by rw [hasKey_append]; simp [hasKey]) ((hasKey_iff_mem_keys rest p).2 hm)
+
+theorem mergeFiles_keys_nodup (dest src r : Files) (h : mergeFiles dest src = some r)
+    (hd : (keys dest).Nodup) : (keys r).Nodup := by
+  obtain ⟨rfl, hdis, hn⟩ := mergeFiles_some_spec _ _ _ h
+  exact keys_nodup_append _ _ hd hn hdis
 
 theorem mergePlugins_some_spec (acc : Files) (l : List Files) (r : Files)
     (h : mergePlugins acc l = some r) :
-    r = acc ++ l.flatten ∧ (∀ f ∈ l, KeyDisjoint acc f) ∧ l.Pairwise KeyDisjoint := by
+    r = acc ++ l.flatten ∧ (∀ f ∈ l, KeyDisjoint acc f) ∧ l.Pairwise KeyDisjoint ∧
+      (∀ f ∈ l, (keys f).Nodup) ∧ ((keys acc).Nodup → (keys r).Nodup) := by
   induction l generalizing acc with
   | nil => simp only [mergePlugins, Option.some.injEq] at h; simp [h]
   | cons f fs ih =>
@@ -65,9 +89,10 @@ theorem mergePlugins_some_spec (acc : Files) (l : List Files) (r : Files)
     | none => simp [hm] at h
     | some acc' =>
       simp only [hm] at h
-      obtain ⟨rfl, hd⟩ := mergeFiles_some_spec _ _ _ hm
-      obtain ⟨hr, hall, hpw⟩ := ih _ h
-      refine ⟨by simp [hr], ?_, ?_⟩
+      have hkn := mergeFiles_keys_nodup _ _ _ hm
+      obtain ⟨rfl, hd, hnf⟩ := mergeFiles_some_spec _ _ _ hm
+      obtain ⟨hr, hall, hpw, hnod, hkr⟩ := ih _ h
+      refine ⟨by simp [hr], ?_, ?_, ?_, fun ha => hkr (hkn ha)⟩
       · intro g hg
         simp only [List.mem_cons] at hg
         rcases hg with rfl | hg
@@ -75,13 +100,18 @@ theorem mergePlugins_some_spec (acc : Files) (l : List Files) (r : Files)
         · exact fun p h1 h2 => hall g hg p (by rw [hasKey_append]; simp [h1]) h2
       · rw [List.pairwise_cons]
         exact ⟨fun g hg p h1 h2 => hall g hg p (by rw [hasKey_append]; simp [h1]) h2, hpw⟩
+      · intro g hg
+        simp only [List.mem_cons] at hg
+        rcases hg with rfl | hg
+        · exact hnf
+        · exact hnod g hg
 
 /-! ### genModules -/
 
 theorem genModules_cons_ok {root : Str} {acc : Files} {m : ModIn} {ms : List ModIn} {r : Files}
     (h : genModules root acc (m :: ms) = .ok r) :
-    ∃ c p, m.result = some c ∧ modulePath root m.thriftPath = some p ∧ hasKey acc p = false ∧
-      genModules root (acc ++ [(p, c)]) ms = .ok r := by
+    ∃ c p, m.result = some c ∧ modulePath root m.thriftPath = some p ∧
+      hasKey acc (normKey p) = false ∧ genModules root (acc ++ [(normKey p, c)]) ms = .ok r := by
   unfold genModules at h
   split at h
   · rename_i c p hc hp
@@ -92,25 +122,30 @@ theorem genModules_cons_ok {root : Str} {acc : Files} {m : ModIn} {ms : List Mod
     · exact absurd h (by simp)
   · exact absurd h (by simp)
 
-/-- the module of a core path. -/
-def ModPath (root : Str) (m : ModIn) (p : Str) : Prop := modulePath root m.thriftPath = some p
+/-- `k` is the (normalised) key under which the core generator files module `m`. -/
+def ModKey (root : Str) (m : ModIn) (k : Str) : Prop :=
+  ∃ p, modulePath root m.thriftPath = some p ∧ normKey p = k
 
 theorem genModules_ok_spec (root : Str) (acc : Files) (mods : List ModIn) (r : Files)
     (h : genModules root acc mods = .ok r) :
     (∀ m ∈ mods, m.result.isSome = true ∧ (modulePath root m.thriftPath).isSome = true) ∧
-    (∀ x ∈ r, x ∈ acc ∨ ∃ m ∈ mods, ModPath root m x.1) ∧
+    (∀ x ∈ r, x ∈ acc ∨ ∃ m ∈ mods, ModKey root m x.1) ∧
     (∀ p, hasKey acc p = true → hasKey r p = true) ∧
-    (∀ m ∈ mods, ∀ p, ModPath root m p → hasKey r p = true ∧ hasKey acc p = false) ∧
-    mods.Pairwise (fun a b => ∀ p, ModPath root a p → ModPath root b p → False) := by
+    (∀ m ∈ mods, ∀ k, ModKey root m k → hasKey r k = true ∧ hasKey acc k = false) ∧
+    mods.Pairwise (fun a b => ∀ k, ModKey root a k → ModKey root b k → False) ∧
+    ((keys acc).Nodup → (keys r).Nodup) := by
   induction mods generalizing acc with
   | nil =>
     simp only [genModules, Except.ok.injEq] at h
     subst h; simp
   | cons m ms ih =>
     obtain ⟨c, p, hc, hp, hk, hrest⟩ := genModules_cons_ok h
-    obtain ⟨h1, h2, h3, h4, h5⟩ := ih _ hrest
-    have hpr : hasKey r p = true := h3 p (by rw [hasKey_append]; simp [hasKey])
-    refine ⟨?_, ?_, ?_, ?_, ?_⟩
+    obtain ⟨h1, h2, h3, h4, h5, h6⟩ := ih _ hrest
+    have hpr : hasKey r (normKey p) = true := h3 _ (by rw [hasKey_append]; simp [hasKey])
+    have hkey : ∀ q, ModKey root m q → q = normKey p := by
+      rintro q ⟨p', hp', rfl⟩
+      rw [hp] at hp'; rw [Option.some.inj hp']
+    refine ⟨?_, ?_, ?_, ?_, ?_, ?_⟩
     · intro m' hm'
       simp only [List.mem_cons] at hm'
       rcases hm' with rfl | hm'
@@ -121,24 +156,30 @@ theorem genModules_ok_spec (root : Str) (acc : Files) (mods : List ModIn) (r : F
       · simp only [List.mem_append, List.mem_singleton] at hx
         rcases hx with hx | rfl
         · exact Or.inl hx
-        · exact Or.inr ⟨m, by simp, hp⟩
+        · exact Or.inr ⟨m, by simp, p, hp, rfl⟩
       · exact Or.inr ⟨m', by simp [hm'], hmp⟩
     · intro q hq; exact h3 q (by rw [hasKey_append]; simp [hq])
     · intro m' hm' q hq
       simp only [List.mem_cons] at hm'
       rcases hm' with rfl | hm'
-      · have : q = p := by simpa [ModPath, hp] using hq.symm
-        subst this; exact ⟨hpr, hk⟩
+      · rw [hkey q hq]; exact ⟨hpr, hk⟩
       · obtain ⟨ha, hb⟩ := h4 m' hm' q hq
         rw [hasKey_append] at hb
         exact ⟨ha, by simpa using (Bool.or_eq_false_iff.1 hb).1⟩
     · rw [List.pairwise_cons]
       refine ⟨fun m' hm' q hq hq' => ?_, h5⟩
-      have : q = p := by simpa [ModPath, hp] using hq.symm
-      subst this
-      have := (h4 m' hm' q hq').2
+      have hq1 := hkey q hq
+      subst hq1
+      have := (h4 m' hm' _ hq').2
       rw [hasKey_append] at this
       simp [hasKey] at this
+    · intro ha
+      apply h6
+      apply keys_nodup_append _ _ ha (by simp [keys])
+      intro q h1 h2
+      have : normKey p = q := by simpa [hasKey] using h2
+      subst this
+      rw [hk] at h1; exact absurd h1 (by simp)
 
 /-! ### plugins -/
 
@@ -205,13 +246,13 @@ theorem Checked.get {plugs fs} (h : Checked plugs fs) (i : Nat) (f : Files)
 
 theorem runPlugins_ok {plugs : List (Option Files)} {ord : List Nat} {pf : Files}
     (h : runPlugins plugs ord = .ok pf) :
-    ∃ fs, Checked plugs fs ∧ mergePlugins [] (pickOrder fs ord) = some pf := by
+    ∃ fs, Checked plugs fs ∧ mergePlugins [] (pickOrder (fs.map normFiles) ord) = some pf := by
   unfold runPlugins at h
   cases ha : allOk (plugs.map checkPlugin) with
   | error e => simp [ha] at h
   | ok fs =>
     simp only [ha] at h
-    cases hm : mergePlugins [] (pickOrder fs ord) with
+    cases hm : mergePlugins [] (pickOrder (fs.map normFiles) ord) with
     | none => simp [hm] at h
     | some m =>
       simp only [hm, Except.ok.injEq] at h
@@ -248,20 +289,25 @@ theorem generatePlan_ok {root out : Str} {mods plugs ord} {ws : Files}
     simp only [hp, Except.ok.injEq] at h
     exact ⟨fs, rfl, h.symm⟩
 
-/-- everything a successful plan rests on, in one place. -/
+/-- everything a successful plan rests on, in one place (`l` = the normalised plugin answers in
+completion order). -/
 theorem generatePlan_ok_spec {root out : Str} {mods plugs ord} {ws : Files}
     (h : generatePlan root out mods plugs ord = .ok ws) :
     ∃ core fs, genModules root [] mods = .ok core ∧ Checked plugs fs ∧
-      (pickOrder fs ord).Pairwise KeyDisjoint ∧
-      KeyDisjoint core (pickOrder fs ord).flatten ∧
-      ws = (core ++ (pickOrder fs ord).flatten).map fun x => (join2 out x.1, x.2) := by
+      (pickOrder (fs.map normFiles) ord).Pairwise KeyDisjoint ∧
+      (∀ f ∈ pickOrder (fs.map normFiles) ord, (keys f).Nodup) ∧
+      KeyDisjoint core (pickOrder (fs.map normFiles) ord).flatten ∧
+      (keys (core ++ (pickOrder (fs.map normFiles) ord).flatten)).Nodup ∧
+      ws = (core ++ (pickOrder (fs.map normFiles) ord).flatten).map fun x => (join2 out x.1, x.2) := by
   obtain ⟨all, hp, rfl⟩ := generatePlan_ok h
   obtain ⟨core, pf, hg, hr, hm⟩ := planFiles_ok hp
   obtain ⟨fs, hc, hmp⟩ := runPlugins_ok hr
-  obtain ⟨hpf, _, hpw⟩ := mergePlugins_some_spec _ _ _ hmp
-  obtain ⟨rfl, hd⟩ := mergeFiles_some_spec _ _ _ hm
+  obtain ⟨hpf, _, hpw, hnod, hkn⟩ := mergePlugins_some_spec _ _ _ hmp
+  have hcore := (genModules_ok_spec _ _ _ _ hg).2.2.2.2.2 (by simp [keys])
+  have hall := mergeFiles_keys_nodup _ _ _ hm hcore
+  obtain ⟨rfl, hd, _⟩ := mergeFiles_some_spec _ _ _ hm
   simp only [List.nil_append] at hpf
   subst hpf
-  exact ⟨core, fs, hg, hc, hpw, hd, rfl⟩
+  exact ⟨core, fs, hg, hc, hpw, hnod, hd, hall, rfl⟩
 
 end ThriftVerif.Proto
